@@ -164,6 +164,280 @@ fn pair_budget(rep: &Report, stm: bool, setup: &str, first: &str, second: &str, 
     }
 }
 
+/// Options the engine advertises in its answer to `uci` (name, type, default, min, max, vars).
+pub struct UciOption {
+    pub name: String,
+    pub kind: String,
+    pub default: Option<String>,
+    pub min: Option<i64>,
+    pub max: Option<i64>,
+    pub vars: Vec<String>,
+}
+
+pub fn parse_options(uci_reply: &str) -> Vec<UciOption> {
+    let mut out = Vec::new();
+    for line in uci_reply.lines() {
+        let toks: Vec<&str> = line.split_whitespace().collect();
+        if toks.len() < 3 || toks[0] != "option" || toks[1] != "name" {
+            continue;
+        }
+        let keys = ["type", "default", "min", "max", "var"];
+        let mut name = Vec::new();
+        let mut i = 2;
+        while i < toks.len() && toks[i] != "type" {
+            name.push(toks[i]);
+            i += 1;
+        }
+        let mut o = UciOption { name: name.join(" "), kind: String::new(), default: None, min: None, max: None, vars: Vec::new() };
+        while i < toks.len() {
+            let k = toks[i];
+            let mut v = Vec::new();
+            i += 1;
+            while i < toks.len() && !keys.contains(&toks[i]) {
+                v.push(toks[i]);
+                i += 1;
+            }
+            let v = v.join(" ");
+            match k {
+                "type" => o.kind = v,
+                "default" => o.default = Some(v),
+                "min" => o.min = v.parse().ok(),
+                "max" => o.max = v.parse().ok(),
+                "var" => o.vars.push(v),
+                _ => {}
+            }
+        }
+        out.push(o);
+    }
+    out
+}
+
+/// The setoption lines tried for one advertised option: the ends of its range, its default, the
+/// neighbours of the ends, the midpoint, round numbers inside the range; both values of a check;
+/// every var of a combo; a button pressed.
+pub fn option_lines(o: &UciOption) -> Vec<String> {
+    let mut vals: Vec<String> = Vec::new();
+    match o.kind.as_str() {
+        "spin" => {
+            let lo = o.min.unwrap_or(0);
+            let hi = o.max.unwrap_or(lo.max(1000));
+            let mut c: Vec<i64> = vec![lo, hi, lo + 1, hi - 1, lo + (hi - lo) / 2];
+            if let Some(d) = o.default.as_ref().and_then(|d| d.parse::<i64>().ok()) {
+                c.extend([d, d * 2, d * 3, d / 2, d + 1, d - 1]);
+            }
+            c.extend([0, 1, 10, 50, 100, 150, 200, 300, 500, 1000, 5000, 10000, 60000]);
+            c.retain(|v| *v >= lo && *v <= hi);
+            c.sort();
+            c.dedup();
+            vals = c.into_iter().map(|v| v.to_string()).collect();
+        }
+        "check" => vals = vec!["true".into(), "false".into()],
+        "combo" => vals = o.vars.clone(),
+        "string" => vals = vec!["".into(), "x".into(), "100".into()],
+        "button" => return vec![format!("setoption name {}", o.name)],
+        _ => {}
+    }
+    vals.into_iter().map(|v| format!("setoption name {} value {}", o.name, v)).collect()
+}
+
+/// Option names GUIs send by habit whether or not the engine advertises them (an engine must
+/// ignore what it does not know; one that knows them without saying so is still bound by the
+/// property).
+pub const HABITUAL_OPTIONS: &[&str] = &["Hash", "Threads", "Ponder", "MultiPV", "Move Overhead", "Slow Mover", "Minimum Thinking Time", "nodestime", "UCI_AnalyseMode", "UCI_LimitStrength", "UCI_Elo", "Contempt", "Skill Level", "OwnBook", "Clear Hash"];
+pub const HABITUAL_VALUES: &[&str] = &["0", "1", "10", "100", "200", "300", "1000", "5000", "true", "false"];
+
+/// One session on a fresh engine (dry run): the commands in order (they contain the position
+/// command), then the same clock-based go with two different opponent clocks, each on its own
+/// fresh engine. Both budgets must fit the mover's clock and be equal. Returns go lines run.
+fn session_case(rep: &Report, stm: bool, cmds: &[String], own_time: u64, own_inc: u64) -> u64 {
+    let args = vec!["c12-session".to_string(), "--stm".into(), if stm { "w".into() } else { "b".into() }, "--cmds".into(), cmds.join(";"), "--own-time".into(), own_time.to_string(), "--own-inc".into(), own_inc.to_string()];
+    crate::crumb::set_owned(&args);
+    let sig = format!("C12 session stm={} cmds={:?} own_time={} own_inc={}", if stm { "w" } else { "b" }, cmds.join(";"), own_time, own_inc);
+    let mut budgets = Vec::new();
+    for (opp_time, opp_inc) in [(0u64, 0u64), (3_600_000u64, 7u64)] {
+        let vals = if stm { [own_time, opp_time, own_inc, opp_inc] } else { [opp_time, own_time, opp_inc, own_inc] };
+        let go = format!("go wtime {} btime {} winc {} binc {}", vals[0], vals[1], vals[2], vals[3]);
+        let r = guard(|| {
+            let mut fl = Flounder::new();
+            crate::search::verif::set_dry_run(true);
+            for c in cmds {
+                fl.verif_handle_command(c);
+            }
+            fl.verif_handle_command(&go);
+            crate::search::verif::last_go().map(|(_, t)| t.map(|d| d.as_millis()))
+        });
+        match r {
+            Err(e) => {
+                rep.violation(format!("{} panic", sig), format!("{:?} then {:?}: {}", cmds, go, e), args.clone(), J::Null);
+                return 1;
+            }
+            Ok(None) | Ok(Some(None)) => {
+                rep.violation(format!("{} nolimit", sig), format!("{:?} then {:?}: no time limit was set although the mover's clock was given", cmds, go), args.clone(), J::Null);
+                return 1;
+            }
+            Ok(Some(Some(b))) => {
+                if b > own_time as u128 || (own_time > 0 && b >= own_time as u128) {
+                    rep.violation(format!("{} exceeds", sig), format!("{:?} then {:?} ({} to move): budget {} ms does not fit in the mover's remaining {} ms", cmds, go, if stm { "white" } else { "black" }, b, own_time), args.clone(), J::Null);
+                    return 1;
+                }
+                budgets.push(b);
+            }
+        }
+    }
+    if budgets.len() == 2 && budgets[0] != budgets[1] {
+        rep.violation(format!("{} depends-on-opponent", sig), format!("{:?} then a go with own clock {} ms + {} ms: budget {} ms with the opponent at 0 ms, {} ms with the opponent at 3 600 000 ms + 7 ms", cmds, own_time, own_inc, budgets[0], budgets[1]), args, J::Null);
+    }
+    2
+}
+
+pub fn replay_session(stm: &str, cmds: &str, own_time: u64, own_inc: u64) -> i32 {
+    let rep = Report::new("C12", "quick", 0);
+    let cmds: Vec<String> = cmds.split(';').map(|c| c.to_string()).collect();
+    session_case(&rep, stm == "w", &cmds, own_time, own_inc);
+    let v = rep.violations.lock().unwrap();
+    for x in v.iter() {
+        println!("REPLAY-VIOLATION {} :: {}", x.sig, x.text);
+    }
+    if v.is_empty() {
+        println!("REPLAY-OK C12 session {:?}", cmds);
+        0
+    } else {
+        1
+    }
+}
+
+/// Own clocks tried in every option session: around the reserve, with increments that dominate.
+const SESSION_CLOCKS: [(u64, u64); 16] = [(0, 0), (1, 0), (1, 1000), (100, 0), (100, 1000), (3000, 0), (3000, 1000), (3000, 1200), (3000, 3000), (5100, 0), (60_000, 0), (60_000, 1000), (60_000, 60_000), (600_000, 5000), (3_600_000, 0), (3_600_000, 60_000)];
+
+/// Sessions in which something was said to the engine before the clock-based go: every value
+/// (see option_lines) of every option it advertises, every habitual option with round values,
+/// each before the position command, after it, and before a ucinewgame; pairs of advertised
+/// options. Returns (go lines, advertised options, setoption lines tried).
+fn option_part(rep: &Report, engine: Option<&str>, thorough: bool) -> (u64, Vec<String>, u64) {
+    let mut advertised: Vec<UciOption> = Vec::new();
+    if let Some(exe) = engine {
+        let o = crate::blackbox::Opts { exe, node_clock: None, zseed: None, horizon: std::time::Duration::from_secs(20) };
+        match crate::blackbox::run(&o, b"uci\nquit\n") {
+            Ok(r) => advertised = parse_options(&r.stdout),
+            Err(e) => {
+                eprintln!("MACHINERY ERROR: cannot ask the engine for its options: {}", e);
+                std::process::exit(2);
+            }
+        }
+    }
+    let mut lines: Vec<String> = Vec::new();
+    let mut adv_lines: Vec<Vec<String>> = Vec::new();
+    for o in &advertised {
+        let l = option_lines(o);
+        lines.extend(l.iter().cloned());
+        adv_lines.push(l);
+    }
+    for n in HABITUAL_OPTIONS {
+        if advertised.iter().any(|o| o.name.eq_ignore_ascii_case(n)) {
+            continue;
+        }
+        for v in HABITUAL_VALUES {
+            lines.push(format!("setoption name {} value {}", n, v));
+        }
+        lines.push(format!("setoption name {}", n));
+    }
+    // sessions: (commands before the go, with the position command placed)
+    let mut sessions: Vec<(bool, Vec<String>)> = Vec::new();
+    for stm in [true, false] {
+        let pos = if stm { "position startpos" } else { "position startpos moves e2e4" }.to_string();
+        for l in &lines {
+            sessions.push((stm, vec![l.clone(), pos.clone()]));
+            sessions.push((stm, vec![pos.clone(), l.clone()]));
+            sessions.push((stm, vec![l.clone(), "ucinewgame".into(), pos.clone()]));
+            sessions.push((stm, vec!["uci".into(), l.clone(), "isready".into(), "ucinewgame".into(), pos.clone(), "isready".into()]));
+        }
+        // two advertised options together (their effects may only be harmless together)
+        for (i, a) in adv_lines.iter().enumerate() {
+            for b in adv_lines.iter().skip(i + 1) {
+                for la in a {
+                    for lb in b {
+                        sessions.push((stm, vec![la.clone(), lb.clone(), pos.clone()]));
+                    }
+                }
+            }
+        }
+    }
+    let clocks: Vec<(u64, u64)> = if thorough {
+        let mut c = SESSION_CLOCKS.to_vec();
+        for &t in &TIMES {
+            for &i in INCS.iter().chain([t / 2, t, t.saturating_mul(3)].iter()) {
+                if !c.contains(&(t, i)) {
+                    c.push((t, i));
+                }
+            }
+        }
+        c
+    } else {
+        SESSION_CLOCKS.to_vec()
+    };
+    // one engine per session walks all clocks (cheap); anything it shows is confirmed on fresh
+    // engines by session_case, which is also the replay
+    let res: Vec<u64> = crate::par::par_map(&sessions, |(stm, cmds)| {
+        if rep.saturated() {
+            return 0;
+        }
+        let mut n = 0u64;
+        let mut suspicious: Vec<(u64, u64)> = Vec::new();
+        let walk = guard(|| {
+            let mut fl = Flounder::new();
+            crate::search::verif::set_dry_run(true);
+            for c in cmds {
+                fl.verif_handle_command(c);
+            }
+            let mut sus = Vec::new();
+            let mut cnt = 0u64;
+            for &(t, i) in &clocks {
+                let mut seen: Option<u128> = None;
+                for (ot, oi) in [(0u64, 0u64), (3_600_000u64, 7u64)] {
+                    let vals = if *stm { [t, ot, i, oi] } else { [ot, t, oi, i] };
+                    fl.verif_handle_command(&format!("go wtime {} btime {} winc {} binc {}", vals[0], vals[1], vals[2], vals[3]));
+                    cnt += 1;
+                    let b = crate::search::verif::last_go().and_then(|(_, t)| t.map(|d| d.as_millis()));
+                    let ok = match b {
+                        None => false,
+                        Some(b) => !(b > t as u128 || (t > 0 && b >= t as u128)) && seen.map(|s| s == b).unwrap_or(true),
+                    };
+                    if let Some(b) = b {
+                        seen = Some(b);
+                    }
+                    if !ok && !sus.contains(&(t, i)) {
+                        sus.push((t, i));
+                    }
+                }
+            }
+            (cnt, sus)
+        });
+        match walk {
+            Ok((cnt, sus)) => {
+                n += cnt;
+                suspicious = sus;
+            }
+            Err(_) => suspicious = clocks.clone(), // a panic somewhere in the walk: find it case by case
+        }
+        for (t, i) in suspicious.into_iter().take(4) {
+            let before = rep.violations.lock().unwrap().len();
+            n += session_case(rep, *stm, cmds, t, i);
+            if rep.violations.lock().unwrap().len() == before {
+                // only the walk (one engine, earlier go commands) shows it
+                rep.violation(
+                    format!("C12 session-walk stm={} cmds={:?} own_time={} own_inc={}", if *stm { "w" } else { "b" }, cmds.join(";"), t, i),
+                    format!("after {:?} and clock-based go commands over the own clocks {:?} in this order (each with the opponent at 0 ms and at 3 600 000 ms + 7 ms), the go with own clock {} ms + {} ms got a budget that does not fit or moves with the opponent's clock; the same go as the first of a fresh engine is fine", cmds, clocks, t, i),
+                    vec![],
+                    J::Null,
+                );
+            }
+        }
+        n
+    });
+    let names: Vec<String> = advertised.iter().map(|o| format!("{} ({})", o.name, o.kind)).collect();
+    (res.iter().sum(), names, lines.len() as u64)
+}
+
 /// One real go under the node clock; returns the share of the clock spent (per mille).
 fn spend_case(rep: &Report, fen: &str, t: u64, inc: u64) -> u64 {
     let white = fen.split_whitespace().nth(1) == Some("w");
@@ -264,8 +538,10 @@ fn make_engine(white_to_move: bool) -> Flounder {
     fl
 }
 
-pub fn run(tier: &str, seed: u64, out: &str) {
+pub fn run(tier: &str, seed: u64, out: &str, engine: Option<&str>) {
     let rep = Report::new("C12", tier, seed);
+    let (opt_n, opt_names, opt_lines) = option_part(&rep, engine, tier == "thorough");
+    eprintln!("[C12] option sessions: {} go lines, advertised options {:?}, {} setoption lines ({:.1}s)", opt_n, opt_names, opt_lines, rep.elapsed());
     let names = ["wtime", "btime", "winc", "binc"];
     // work unit = (side to move, own time index)
     let mut units = Vec::new();
@@ -632,7 +908,7 @@ pub fn run(tier: &str, seed: u64, out: &str) {
 
     let dn: u64 = dres.iter().map(|r| r.0).sum();
     let ddistinct: u64 = dres.iter().map(|r| r.1).sum();
-    let n: u64 = results.iter().map(|r| r.0).sum::<u64>() + dn + en + mn + sn + pn + spn;
+    let n: u64 = results.iter().map(|r| r.0).sum::<u64>() + dn + en + mn + sn + pn + spn + opt_n;
     let distinct: u64 = results.iter().map(|r| r.1).sum::<u64>() + ddistinct + edistinct;
     let samples: Vec<String> = results.iter().flat_map(|r| r.2.iter().cloned()).take(8).collect();
     let cov = J::obj()
@@ -644,6 +920,7 @@ pub fn run(tier: &str, seed: u64, out: &str) {
         .set("movestogo", J::obj().set("go_lines", mn).set("rule", "movestogo N (N in 0,1,2,10,40) in each of the five slots around the four clock pairs, three pair orders, own time over the 19 grid values, own increment over the 6 grid values + time/2, time, 3*time, three opponent clocks; the budget must fit and must not change with the opponent's clock (lines with a different layout or N are not compared)"))
         .set("session_stages", J::obj().set("go_lines", sn).set("rule", "the same go line as the very first go of a fresh engine, repeated, as the first go after ucinewgame, and after a real depth-1 search; fit and independence from the opponent's clock per stage"))
         .set("pairs_of_go_commands", J::obj().set("pairs", pn).set("rule", "two clock-based go commands in one game (no ucinewgame between): own clock of each over 0, 1, 100, 3000, 60000, 303000, 3600000 ms x increment 0, 1000, 60000, both sides to move, three opponent-clock variants; the second budget must fit its clock and be the same for all opponent variants"))
+        .set("option_sessions", J::obj().set("go_lines", opt_n).set("options_advertised_by_the_engine", J::Arr(opt_names.iter().map(|n| J::Str(n.clone())).collect())).set("setoption_lines_tried", opt_lines).set("rule", "a setoption line before the position command, after it, before a ucinewgame, and inside a uci/isready-framed session, then clock-based go commands over 16 own clocks (thorough: the whole grid) x two opponent clocks: every value at and next to the ends of the range, the default and its multiples and round numbers for each spin option the engine advertises in its uci answer (both values of a check, every var of a combo, buttons pressed, pairs of advertised options), plus 15 option names GUIs send by habit with 10 round values each; budgets must fit the mover's clock and not move with the opponent's; anything seen is confirmed on fresh engines (that is the replay)"))
         .set("budget_as_spent", J::obj().set("real_go_commands", spn).set("positions", SPEND_POSITIONS.len()).set("largest_share_of_the_clock_spent_permille", sp_max).set("rule", "real go (not dry run) under the node clock on middlegame positions, own clock 600 .. 400000 ms in 10 steps x increment 0 or the whole clock, plus 3 000 000 and 8 000 000 ms with an increment of the whole clock (searches of 1.5 and 4 million nodes): virtual time elapsed when the answer comes (nodes visited) must be below the mover's clock (+ the C07 allowance of 2048 nodes)"))
         .set("exhaustive", true)
         .set("samples", samples);
